@@ -408,6 +408,21 @@ def scan_file(rel, src):
         lo = chain_start(i) if qualified else i
         add("recursion", lo, partner[i + 1], i)
 
+    # `if` / `while` conditions of the functions that contain arithmetic / index / slice / Punctuated-push sites
+    # (the guards of those sites)
+    arith_fns = set(st["fn"] for st in sites if st["kind"] in ("arith", "vecop", "index", "slice"))
+    guards = {}
+    for i, t in enumerate(toks):
+        if skip[i] or t.k != "id" or t.t not in ("if", "while") or fn_of[i] not in arith_fns:
+            continue
+        j = i + 1
+        while j < n and not (toks[j].t == "{" and partner[j] > 0):
+            if toks[j].k == "open" and partner[j] > 0:
+                j = partner[j]
+            j += 1
+        guards.setdefault(fn_of[i], []).append(_norm(toks[i + 1:j]))
+    GUARDS.update({"%s|%s" % (rel, f): g for f, g in guards.items()})
+
     # ordinals for identical (file, fn, kind, text)
     seen = {}
     for s in sites:
@@ -419,6 +434,81 @@ def scan_file(rel, src):
         s["ord"] = k
         s["key"] = base + ("" if k == 0 else "#%d" % k)
     return sites
+
+
+GUARDS = {}          # "file|fn" -> [condition text]; filled by scan_file
+
+
+class _AParser:
+    """arithmetic site text -> Gallina term of type aexp (Gen/PanicSiteList.v)"""
+    PREC = {"<<": 1, ">>": 1, "+": 2, "-": 2, "*": 3, "/": 3, "%": 3}
+    OPN = {"+": "APlus", "-": "AMinus", "*": "AMul", "/": "ADiv", "%": "ARem", "<<": "AShl", ">>": "AShr"}
+
+    def __init__(self, toks):
+        # re-glue shifts
+        out = []
+        for t in toks:
+            if out and t in ("<", ">") and out[-1] == t and (len(out) < 2 or out[-2] != t):
+                out[-1] = t * 2
+            else:
+                out.append(t)
+        self.t, self.i = out, 0
+
+    def peek(self):
+        return self.t[self.i] if self.i < len(self.t) else None
+
+    def parse(self):
+        try:
+            # compound assignment  x op= e
+            if len(self.t) >= 3 and self.t[1] in ("+=", "-=", "*=", "/=", "%=", "<<=", ">>=") and re.match(r"^[A-Za-z_]\w*$", self.t[0]):
+                x, o = self.t[0], self.t[1][:-1]
+                self.i = 2
+                e = self.expr(0)
+                if self.i != len(self.t):
+                    return "AUnknown"
+                return '(AAssign %s "%s" %s)' % (self.OPN[o], x, e)
+            e = self.expr(0)
+            return e if self.i == len(self.t) else "AUnknown"
+        except Exception:
+            return "AUnknown"
+
+    def expr(self, minp):
+        l = self.atom()
+        while self.peek() in self.PREC and self.PREC[self.peek()] > minp:
+            o = self.peek()
+            self.i += 1
+            r = self.expr(self.PREC[o])
+            l = "(ABin %s %s %s)" % (self.OPN[o], l, r)
+        return l
+
+    def atom(self):
+        t = self.peek()
+        if t == "(":
+            self.i += 1
+            e = self.expr(0)
+            if self.peek() != ")":
+                raise ValueError
+            self.i += 1
+            return e
+        if t == "-":
+            self.i += 1
+            return "(ANeg %s)" % self.atom()
+        if t is not None and re.match(r"^\d[\d_]*$", t) and int(t.replace("_", "")) < 100000:
+            self.i += 1
+            return "(AConst %d)" % int(t.replace("_", ""))
+        if t is not None and re.match(r"^[A-Za-z_]\w*$", t) and t not in KEYWORDS - {"self"}:
+            name = [t]
+            self.i += 1
+            while self.peek() == "." and self.i + 1 < len(self.t) and re.match(r"^[A-Za-z_]\w*$", self.t[self.i + 1]):
+                if self.t[self.i + 1] == "len" and self.t[self.i + 2:self.i + 4] == ["(", ")"]:
+                    self.i += 4
+                    return '(ALen "%s")' % ".".join(name)
+                name.append(self.t[self.i + 1])
+                self.i += 2
+            if self.peek() in ("(", "[", ".", "::", "!"):
+                raise ValueError
+            return '(AVar "%s")' % ".".join(name)
+        raise ValueError
 
 
 def _is_bound_plus(toks, i):
@@ -604,6 +694,7 @@ def source_files():
 
 
 def inventory():
+    GUARDS.clear()
     sites = []
     for rel, p in source_files():
         sites.extend(scan_file(rel, open(p, encoding="utf-8").read()))
@@ -665,6 +756,29 @@ def generate(path=None):
             coq_string(s["key"]), coq_string(s["file"]), coq_string(s["fn"]), kmap[s["kind"]], s["line"],
             coq_string(s["text"][:160])))
     lines.append(";\n".join(rows))
+    lines.append("].")
+    lines.append("")
+    lines.append("(* every arithmetic site as an expression tree, keyed `file|fn|arith#k` (k-th arithmetic site of that fn) *)")
+    lines.append("Inductive aop := APlus | AMinus | AMul | ADiv | ARem | AShl | AShr.")
+    lines.append("Inductive aexp := AVar (x : string) | ALen (x : string) | AConst (n : nat) | ABin (o : aop) (l r : aexp)")
+    lines.append("  | AAssign (o : aop) (x : string) (r : aexp) | ANeg (e : aexp) | AUnknown.")
+    lines.append("Definition arith_table : list (string * aexp) := [")
+    rows2, cnt = [], {}
+    for st in sites:
+        if st["kind"] != "arith":
+            continue
+        base = "%s|%s" % (st["file"], st["fn"])
+        k = cnt.get(base, 0)
+        cnt[base] = k + 1
+        st["arith_key"] = "%s|arith#%d" % (base, k)
+        rows2.append("  (%s, %s)" % (coq_string(st["arith_key"]), _AParser(st["text"].split(" ")).parse()))
+    lines.append(";\n".join(rows2))
+    lines.append("].")
+    lines.append("")
+    lines.append("(* the `if` / `while` conditions of the functions that contain arithmetic sites *)")
+    lines.append("Definition fn_guards : list (string * list string) := [")
+    lines.append(";\n".join("  (%s, [%s])" % (coq_string(k), "; ".join(coq_string(g[:200]) for g in v))
+                             for k, v in sorted(GUARDS.items())))
     lines.append("].")
     lines.append("")
     lines.append("(* the usize subtractions of utils.rs fields_ext::FieldsExt::validate_type: (match arm, left operand, right operand) *)")
